@@ -130,7 +130,7 @@ def note_problems(text, note, union=None):
             probs.append(f'own signifiers {sorted(own)} not all kept: {sorted(dec)}')
         if not set(dec) <= set(union):
             probs.append(f'signifiers {sorted(set(dec) - set(union))} not written anywhere in the chord')
-    if any(len(d) != 1 and d not in ('yy',) and not (note.rest and RE_PITCH.match(d)) for d in dec):
+    if any(len(d) != 1 and d not in ('yy', '&(', '&)', 'Ww') and not (note.rest and RE_PITCH.match(d)) for d in dec):
         probs.append(f'signifier parts are not single characters: {dec}')
     return probs
 
